@@ -85,8 +85,10 @@ SHAPES = {
     "I66": (6, 6),
     "a66f": (6, 6),  # same values as a66, stored as float32 (dtype axis)
     "a88f": (8, 8),
+    "s46": (4, 6),  # smaller than 2^(depth+1) for a depth-2 hierarchy
+    "e1616": (16, 16),
 }
-_SALT = {"a66": 0, "b49": 1, "a88": 2, "d88": 5, "b6x10": 3, "v662": 4, "c345": 6, "I66": 7, "a66f": 0, "a88f": 2}
+_SALT = {"a66": 0, "b49": 1, "a88": 2, "d88": 5, "b6x10": 3, "v662": 4, "c345": 6, "I66": 7, "a66f": 0, "a88f": 2, "s46": 8, "e1616": 9}
 
 
 def pattern(shape, salt):
@@ -129,6 +131,17 @@ W_SHAPE = (4, 5)
 def w_pair(p):
     import darsia
 
+    if p.startswith("B"):
+        # a 12 x 13 grid (156 cells: beyond the size up to which the AMG back-end solves directly)
+        a, b = np.zeros((12, 13)), np.zeros((12, 13))
+        if p == "B1":
+            a[1:4, 1:5] = 1.0
+            b[8:11, 7:11] = 1.0
+        else:
+            a[:, 0] = 1.0
+            b[5, :12] = 1.0
+        kw = dict(width=1.3, height=1.2, space_dim=2, scalar=True)
+        return darsia.Image(a, **kw), darsia.Image(b, **kw)
     a, b = np.zeros(W_SHAPE), np.zeros(W_SHAPE)
     # "<P>t": the same pair on a domain of the same voxel COUNT and the same voxel VOLUME but another
     # aspect ratio (voxels 0.125 x 0.5 instead of 0.25 x 0.25) -- anything kept between distance
@@ -180,6 +193,10 @@ W_OPTS = {
     # solver of one call does not fit the first system of the next call
     "Wb-L4": ("bregman", {"L": 4.0, "linear_solver": "direct", "formulation": "full"}),
     "Wab-late-L4": ("adaptive-bregman-late", {"L": 0.25, "linear_solver": "direct", "formulation": "pressure"}),
+    # AMG objects on the 156-cell grid, with few (inexact) linear iterations so that the AMG hierarchy
+    # matters; one of them with its own amg_options
+    "WnB-opts": ("newton", {"L": 1e2, "linear_solver": "amg", "formulation": "pressure", "linear_solver_options": {"atol": 1e-12, "maxiter": 3}, "amg_options": {"max_coarse": 8, "max_levels": 3}}),
+    "WnB-plain": ("newton", {"L": 1e2, "linear_solver": "amg", "formulation": "pressure", "linear_solver_options": {"atol": 1e-12, "maxiter": 3}}),
     "Wb-aa": ("bregman", {"L": 1.0, "linear_solver": "direct", "formulation": "pressure", "aa_depth": 2, "aa_restart": 3}),
     "Wab-d": ("adaptive-bregman", {"L": 1.0, "linear_solver": "direct", "formulation": "pressure"}),
     "Wab-a": ("adaptive-bregman", {"L": 1.0, "linear_solver": "amg", "formulation": "pressure", "linear_solver_options": {"atol": 1e-10}}),
@@ -193,6 +210,7 @@ SOLVERS = {
     "M0": ("MG", dict(depth=0, smoother_iterations=2, maxiter=2), C0),
     "M1": ("MG", dict(depth=1, smoother_iterations=2, maxiter=2), C0),
     "Mh": ("MG", dict(depth=1, smoother_iterations=2, maxiter=2), ["P1", 0.5]),
+    "M2": ("MG", dict(depth=2, smoother_iterations=2, maxiter=2), C0),  # deeper hierarchy: too deep for small arrays
     "Jh": ("Jacobi", dict(maxiter=3), [0.5, "P1"]),  # array-valued diffusion coefficient
     "Jx": ("Jacobi", dict(maxiter=2), None),
     "Mx": ("MG", dict(depth=1, smoother_iterations=2, maxiter=1), None),
@@ -239,10 +257,11 @@ def make_object(name, shared):
             opts["bregman_update"] = _adaptive_schedule
         if method == "adaptive-bregman-late":
             opts["bregman_update"] = _late_schedule
-        if "grid" not in shared:
-            shared["grid"] = darsia.generate_grid(w_pair("P1")[0])
+        gk = "gridB" if name.startswith("WnB") else "grid"
+        if gk not in shared:
+            shared[gk] = darsia.generate_grid(w_pair("B1" if gk == "gridB" else "P1")[0])
         cls = darsia.WassersteinDistanceNewton if method == "newton" else darsia.WassersteinDistanceBregman
-        return cls(shared["grid"], None, opts)
+        return cls(shared[gk], None, opts)
     raise KeyError(name)
 
 
@@ -311,7 +330,9 @@ def group_spec(g, tier):
         for o in objs:
             ops += [op_set(o, C0), op_set(o, C1)] + [op_solve(o, None, i) for i in ("a88", "b6x10")]
         ops += [op_solve("M1", None, "a88f")]
-        return objs, ops, "snap"
+        # a depth-2 solver applied to an array too small for its hierarchy (refused) and to arrays it fits
+        ops += [op_set("M2", C0), op_solve("M2", None, "s46"), op_solve("M2", None, "e1616"), op_solve("M2", None, "a88")]
+        return objs + ["M2"], ops, "snap"
     if g == "jacobi-het":
         ops = [op_set("Jh", [0.5, "P1"]), op_set("Jh", ["P2", "P1"]), op_set("Jh", [2.0, "P2"])]
         ops += [op_solve("Jh", h, "a88") for h in (1, 2, None)]
@@ -354,6 +375,8 @@ def group_spec(g, tier):
         if o == "Wb-d":
             ops += [op_wf("bregman", "P2"), op_wf("bregman", "P2t")]
         return [o], ops, "replay"
+    if g == "w-amg-options":
+        return ["WnB-opts", "WnB-plain"], [op_w(o, pp) for o in ("WnB-opts", "WnB-plain") for pp in ("B1", "B2")], "replay"
     if g == "w-shared-options":
         return ["OPTS"], [op_ws("newton", "P1"), op_ws("bregman", "P1"), op_ws("bregman", "P2"), op_ws("newton", "P2")], "replay"
     if g == "w-shared":
@@ -378,8 +401,8 @@ def group_spec(g, tier):
 
 GROUPS = (
     ["jacobi", "jacobi-het", "mg", "mg-het", "h1-default", "h1-explicit", "tvd-default", "tvd-explicit", "anderson"]
-    + ["w:" + o for o in W_OPTS]
-    + ["w-shared", "w-shared-options", "cross"]
+    + ["w:" + o for o in W_OPTS if not o.startswith("WnB")]
+    + ["w-shared", "w-shared-options", "w-amg-options", "cross"]
 )
 
 
@@ -446,7 +469,7 @@ def signature(key):
 def api_of(key):
     t = key["t"]
     if t == "solve":
-        return {"J": "jacobi/explicit", "Jt": "jacobi/explicit-tol", "M0": "mg/depth=0", "M1": "mg/depth=1", "Mh": "mg-heterogeneous/depth=1", "Jh": "jacobi-heterogeneous"}[key["o"]]
+        return {"J": "jacobi/explicit", "Jt": "jacobi/explicit-tol", "M0": "mg/depth=0", "M1": "mg/depth=1", "M2": "mg/depth=2", "Mh": "mg-heterogeneous/depth=1", "Jh": "jacobi-heterogeneous"}[key["o"]]
     sk = {"default": "default-solver", "Jx": "explicit-jacobi", "Mx": "explicit-mg"}
     if t == "h1":
         return f"{key['f']}/{sk[key['s']]}"
@@ -558,6 +581,10 @@ def exec_call(world, key):
             outs.append(x.copy())
         return [np.stack(outs)]
     if t == "w1":
+        if key["o"].startswith("WnB"):
+            from mc import env
+
+            env.reseed(0)  # pyamg draws from NumPy's global generator when it builds a hierarchy
         d, info = world[key["o"]](*w_pair(key["p"]))
         return [_arr(d), _arr(info["flux"]), _arr(info["pressure"]), _arr(info["transport_density"])]
     if t == "w1s":
